@@ -171,6 +171,32 @@ def run_impl(lines, timeout_per_case=20.0, binary=None):
     return outs
 
 
+def run_race(lines):
+    """C20: each stress case in its own process of the -race build; a race report on stderr is
+    added to the answer"""
+    binary = HZ + "-race"
+    outs = []
+    env = dict(os.environ)
+    env["GORACE"] = "halt_on_error=0 history_size=2"
+    for line in lines:
+        try:
+            r = subprocess.run([binary, "impl"], input=(line + "\n").encode(), stdout=subprocess.PIPE, stderr=subprocess.PIPE, env=env, timeout=600)
+            got = [g for g in r.stdout.decode().splitlines() if g.strip()]
+            err = r.stderr.decode()
+        except subprocess.TimeoutExpired:
+            got, err = [], "timeout"
+        if not got:
+            outs.append(json.dumps({"class": "killed", "how": "timeout" if err == "timeout" else "fatal", "detail": err[-300:]}))
+            continue
+        ans = json.loads(got[0])
+        if "DATA RACE" in err:
+            m = re.search(r"WARNING: DATA RACE\n(.*?)\n\n", err, flags=re.S)
+            where = re.findall(r"\n  (\S+\(\))\n", err)
+            ans["data_race"] = (where[0] if where else (m.group(1)[:200] if m else "reported"))
+        outs.append(json.dumps(ans))
+    return outs
+
+
 def run_model(lines):
     r = subprocess.run([DRIVER], input=("\n".join(lines) + "\n").encode(), stdout=subprocess.PIPE, stderr=subprocess.PIPE)
     if r.returncode != 0:
@@ -251,10 +277,12 @@ def run_stream(lines, spec, shards=16):
     if not lines:
         return []
     shards = max(1, min(shards, (len(lines) + 49) // 50))
+    if spec.get("race"):
+        shards = max(1, min(3, len(lines)))
     parts = [lines[i::shards] for i in range(shards)]
 
     def work(part):
-        io = run_impl(part)
+        io = run_race(part) if spec.get("race") else run_impl(part)
         mo = run_model(part)
         return list(zip(part, io, mo))
 
@@ -338,6 +366,8 @@ def check(pid, spec, tier, seed, replay, t0):
     if os.path.exists(stale) and not replay:
         os.remove(stale)
     build_harness()
+    if spec.get("race"):
+        build_harness(race=True)
     facts = extract_facts()
 
     # --- proofs: property theorems, then generated obligations one module at a time
